@@ -212,6 +212,12 @@ func (eng *Engine) staticCallees(f *ssa.Function) []*ssa.Function {
 					if mc, ok := a.(*ssa.MakeClosure); ok {
 						out = append(out, mc.Fn.(*ssa.Function))
 					}
+					// a function (method expression, plain function) handed on as a value may be called by
+					// the callee: count it as a possible callee, so that recursion through a parser
+					// combinator is seen as recursion
+					if fv, ok := a.(*ssa.Function); ok && len(fv.Blocks) > 0 {
+						out = append(out, fv)
+					}
 				}
 			}
 			if mc, ok := in.(*ssa.MakeClosure); ok {
